@@ -29,12 +29,22 @@ RULE = (
     "lstat/readlink/inode against the cache object (copy: own inode, nlink 1, not read-only for the local class; "
     "hardlink: same inode, empty files independent; symlink: resolves to the cache path), also after a second "
     "one; with state, links[rel] == (inode, mtime token recomputed by the harness) whenever the call saved a record. "
+    "History dimension (every single-file target, two thirds of the trees): after the plan, 2-8 further forced checkouts of the "
+    "same unchanged object, each at the workspace path or at a second path ws2, with its own drawn configured type "
+    "(links to the cache drawn more often than copies) and relink on/off, so that the object gains and loses hard "
+    "links and symlinks elsewhere before a path is relinked (the only way a single-file object gets nlink > 1); after "
+    "every step the same per-call clauses apply at the step's path (no refusal, cache snapshot equal, files and bytes "
+    "== target, link record), after a relinking step every file there is of the step's type by the same "
+    "lstat/readlink/inode test, and the files and bytes below the other path are as before the step. "
     "Non-trivial = >=1 modified and >=1 added/removed file executed and effective L1 != L2; distinct = SHA-1 of case JSON."
 )
 ASSUMPTIONS = [
     "prior workspace paths agree in kind with the target (edits never turn a file into a directory or back)",
     "the harness never writes through a hard/symbolic link; a touch is applied to independent copies only",
     "reflink is unavailable here: [reflink, copy] is covered as its copy fallback",
+    "history steps never edit the workspace: each step meets the target's own files at its path (as left by earlier "
+    "steps, any link type) or a free path; a plain (non-relinking) step is only held to files/bytes, not to a link type",
+    "'hard link' is judged by inode identity with the cache object, whatever other hard links the object has elsewhere",
     "the link-record token is recomputed by the harness from the documented rule of get_mtime_and_size "
     "(md5 of the sorted {path: mtime} JSON for a directory, rounded ns for a file)",
 ]
@@ -42,6 +52,9 @@ ASSUMPTIONS = [
 TYPE_LISTS = {"copy": ["copy"], "hardlink": ["hardlink"], "symlink": ["symlink"], "reflink+copy": ["reflink", "copy"]}
 EFF = {"copy": "copy", "hardlink": "hardlink", "symlink": "symlink", "reflink+copy": "copy"}
 TYPE_NAMES = ["hardlink", "copy", "symlink", "reflink+copy", "copy", "symlink", "hardlink"]
+# link types of history steps: the two kinds of link to the cache object interact (both are read through stat),
+# so they are drawn more often than the independent copy
+HIST_TYPES = ["hardlink", "symlink", "copy", "hardlink", "symlink", "reflink+copy", "hardlink", "symlink"]
 DT = st.one_of(
     st.integers(1_000, 5_000).map(lambda x: x),               # microseconds
     st.integers(1_000_000, 10_000_000_000),
@@ -118,13 +131,13 @@ def cases(draw, max_files=8):
     # configured link type, relinking or plain: the object acquires extra hard links / symlinks elsewhere before
     # a path is relinked. A single-file target always gets such a history (it is cheap), a tree often.
     if shape == "file":
-        n = draw(st.sampled_from([3, 4, 5, 6, 2, 4]))
+        n = draw(st.sampled_from([4, 6, 5, 8, 3, 7]))
     else:
         n = draw(st.sampled_from([0, 3, 0, 4, 2, 5]))
     case["hist"] = [
         {"at": draw(st.sampled_from([1, 0, 0, 1])),
-         "type": draw(st.sampled_from(TYPE_NAMES)),
-         "relink": draw(st.sampled_from([True, False, True]))}
+         "type": draw(st.sampled_from(HIST_TYPES)),
+         "relink": draw(st.sampled_from([True, False, True, True]))}
         for _ in range(n)
     ]
     return case
